@@ -19,8 +19,9 @@ LEVEL_TEXT = ("Coq theorems over a Gallina model of every argument validator and
               "truncate and usize subtraction return an explicit Panic): none of them panics on ANY valid UTF-8 string; "
               "every name accepted by browse / resolve_hostname / register (full name, type, subtype, host) splits, under "
               "the encoder's own label split (Model/WireOut.v, shared with C02), into labels of 1..63 bytes, so "
-              "write_utf8's assertion cannot fire on it; two refutations with witnesses confirmed on the real daemon "
-              "(conflict renaming, re-encoding of names taken from the wire). The model is tied to the Rust on every run "
+              "write_utf8's assertion cannot fire on it; any number of conflict renames (split_first_label / "
+              "label_with_suffix modelled exactly) keeps a name encodable; every name that passes read_name's fit test "
+              "re-encodes without panic. The model is tied to the Rust on every run "
               "by regenerated guards (Gen/ParamsSafety.v), a differential run of every validator on generated strings, "
               "and simulated-daemon histories whose outcome (call results, daemon alive and serving) is monitored")
 TECHNIQUE = ("machine-checked proof in Coq (char-boundary lemmas over valid UTF-8, label-split lemmas over the encoder "
@@ -56,7 +57,8 @@ PARTIAL = ("Proved: panic-freedom of the validators/renaming functions and encod
            "part of the statement is covered by the K6 monitor only (hostile packets and calls, then status + fresh "
            "browse), together with C01's decode_total for the decoder. AsIpAddrs (std::net parsers), TXT size checks "
            "(C16) and non-ASCII case mapping (to_lowercase may lengthen a label) are outside the model; "
-           "set_multicast_loop_* unwraps depend on the OS. Two parts of the statement are refuted (known findings).")
+           "set_multicast_loop_* unwraps depend on the OS. The name reader itself is Model/Wire.v (C01); here only its "
+           "final fit test is modelled (read_name_fit).")
 
 TCP = "._tcp.local."
 UDP = "._udp.local."
@@ -508,27 +510,8 @@ def _wire_names(h):
 
 
 def known_class(line, impl, mon):
-    if not line.startswith("simh ") or "alive=0" not in impl or "PANIC" in impl.split("|")[0]:
-        return None
-    h = json.loads(line[5:])
-    # (1) a name from the wire whose dotted presentation re-splits into a label of 64+ bytes
-    for labels in _wire_names(h):
-        if any(len(l) > 63 for l in _resplit(dnsgen.dotted(labels))):
-            return "C15-reencode-merged-label"
-    # (2) a registration whose first label leaves no room for the conflict suffix, and a
-    #     datagram carrying a record under one of its names
-    regs = [c["svc"] for c in _calls_of(h) if c["op"] == "register"]
-    wire = [b".".join(l).lower() for l in _wire_names(h)]
-    for s in regs:
-        inst_first = s["name"].replace("\\", "\\\\").replace(".", "\\.").split(".")[0].encode()
-        host_first = s["host"].split(".")[0].encode()
-        ty = s["ty"].rsplit("._sub.", 1)[-1].encode()
-        full = (s["name"].encode() + b"." + ty).rstrip(b".").lower()
-        hostn = s["host"].encode().rstrip(b".").lower()
-        if 60 <= len(inst_first) <= 63 and full in wire:
-            return "C15-rename-overlong-label"
-        if 62 <= len(host_first) <= 63 and hostn in wire:
-            return "C15-rename-overlong-label"
+    # no finding of C15 is open (C15-rename-overlong-label repaired by c85b8fe,
+    # C15-reencode-merged-label by 35da75b; their witnesses are corpus cases that must pass)
     return None
 
 
